@@ -385,5 +385,7 @@ pub fn def() -> PropertyDef {
         witnesses: vec![],
         exhaustive: Some(exhaustive),
         exhaustive_in_quick: false,
+        custom: None,
+        custom_replay: None,
     }
 }
